@@ -70,3 +70,34 @@ def backup_obls(prefix):
 def backup_strict_obls(prefix):
     """Fail on the pinned tree (litter after a failed lock / failed final sync); not part of C20's obligations."""
     return [_backup(prefix, 0, 2, strict=1)]
+
+
+CMP_REAL = ["version_edit.c", "util/buffer.c", "util/slice.c", "util/rbt.c", "dbformat.c", "util/strutil.c", "util/options.c",
+            "util/comparator.c"]
+CMP_KIT = ["vp_nondet.c", "vp_mem.c", "vp_alloc_c17.c"]
+CMP_FUNCS = ["ldb_versions_recover", "read_current_filename", "builder_init", "builder_apply", "builder_save_to", "builder_clear",
+             "ldb_versions_finalize", "ldb_versions_append_version", "ldb_versions_reuse_manifest", "ldb_versions_create",
+             "ldb_edit_import", "ldb_buffer_slurp", "ldb_slice_equal", "ldb_string"]
+
+
+def _cmpmm(prefix, recs, cmpmask, cn, en, tier="quick", timeout=300):
+    return Obl("%s.comparator-mismatch-recs%d-mask%d-cn%d-en%d" % (prefix, recs, cmpmask, cn, en), "vset/comparator_mismatch.c",
+               real=CMP_REAL, include_real=["version_set.c", "util/vector.c"], kit=CMP_KIT,
+               defs={"VP_RECS": recs, "VP_CMP": cmpmask, "VP_CN": cn, "VP_EN": en, "VP_SLAB": 64, "VP_VEC_CAP": 4},
+               unwind=max(cn, en, 8) + 3,
+               unwindset={"ldb_versions_recover.0": recs + 2, "ldb_edit_import.0": 7},
+               tier=tier, timeout=timeout, flags=["--slice-formula", "--max-field-sensitivity-array-size", "2000"],
+               functions=CMP_FUNCS,
+               desc="real ldb_versions_recover() + real ldb_edit_import() on standard MANIFEST records with a symbolic comparator name: "
+                    "name != handle's comparator name (length or any byte) => LDB_INVALID with no remove/rename/truncate/append/write/"
+                    "CURRENT switch issued up to the return, no record read past it, version set untouched, no MANIFEST rewrite "
+                    "requested; equal name (or none recorded) => recovery proceeds, counters and version installed, MANIFEST opened "
+                    "for append only when reused",
+               bounds="%d MANIFEST record(s), comparator name in record(s) mask %d, handle name %d symbolic bytes, stored name %d "
+                      "symbolic bytes, CURRENT read / MANIFEST open / size / append may fail, reuse_logs symbolic" % (recs, cmpmask, cn, en))
+
+
+def cmpmismatch_obls(prefix):
+    return [_cmpmm(prefix, 1, 1, 3, 3), _cmpmm(prefix, 1, 1, 3, 2), _cmpmm(prefix, 1, 1, 2, 3), _cmpmm(prefix, 1, 0, 3, 3),
+            _cmpmm(prefix, 2, 3, 2, 2), _cmpmm(prefix, 2, 2, 3, 4),
+            _cmpmm(prefix, 1, 1, 26, 26, tier="thorough", timeout=900), _cmpmm(prefix, 2, 3, 26, 25, tier="thorough", timeout=900)]
